@@ -42,6 +42,7 @@ type aggDelta struct {
 	Row  Val // snapshot of the row value
 	Key  []*smt.Term
 	Sign int
+	Cond *smt.Term // the delta applies where this holds (nil: always)
 }
 
 type Bank struct {
@@ -170,6 +171,8 @@ func (ex *Exec) amtOf(v Val, d *smt.Term) *smt.Term {
 		return smt.Mul(c.M, ex.amtOf(c.C, d))
 	case *minCoins:
 		return smt.Min(ex.amtOf(c.A, d), ex.amtOf(c.B, d))
+	case *mergedV:
+		return smt.Ite(c.C, ex.amtOf(ex.asCoins(c.A), d), ex.amtOf(ex.asCoins(c.B), d))
 	case *NilV:
 		return smt.IntC(0)
 	}
@@ -415,6 +418,86 @@ func (ex *Exec) hasTerm(w *World, id string, key []*smt.Term) *smt.Term {
 	return r
 }
 
+// rowMerged reads a row without forking: the writes of this path folded (field by field, with
+// ite) over the unknown initial row. The value is meaningful only where hasTerm holds.
+func (ex *Exec) rowMerged(w *World, id string, key []*smt.Term, t types.Type) Val {
+	tb := w.table(ex, id)
+	base := &BytesV{Tag: "row", Row: &RowRef{Base: tb.Base, Key: key, Table: id, TKey: key}}
+	// the invariants of the initial row are known only where that row exists
+	saved := ex.rowGuard
+	ex.rowGuard = smt.App(tb.Base+"!has", smt.Bool, key...)
+	if len(key) == 0 {
+		ex.rowGuard = smt.Var(tb.Base+"!has", smt.Bool)
+	}
+	cur := ex.unmarshalTo(base, t)
+	ex.rowGuard = saved
+	for _, wr := range tb.Writes {
+		c := keysEq(key, wr.Key)
+		if c.IsFalse() || wr.Val == nil {
+			continue
+		}
+		nv := ex.unmarshalTo(wr.Val, t)
+		if c.IsTrue() {
+			cur = nv
+			continue
+		}
+		cur = ex.mergeVal(c, nv, cur)
+	}
+	return cur
+}
+
+// mergeVal is ite(c, a, b) on executor values of one type.
+func (ex *Exec) mergeVal(c *smt.Term, a, b Val) Val {
+	a, b = ex.force(a), ex.force(b)
+	switch x := a.(type) {
+	case *smt.Term:
+		if y, ok := b.(*smt.Term); ok && x.Sort == y.Sort {
+			return smt.Ite(c, x, y)
+		}
+	case *StructV:
+		if y, ok := b.(*StructV); ok && len(x.F) == len(y.F) {
+			r := &StructV{T: x.T, F: make([]Val, len(x.F))}
+			for i := range x.F {
+				r.F[i] = ex.mergeVal(c, x.F[i], y.F[i])
+			}
+			return r
+		}
+	case *TimeV:
+		if y, ok := b.(*TimeV); ok {
+			return &TimeV{Unix: smt.Ite(c, x.Unix, y.Unix)}
+		}
+	case *LazyV:
+		if y, ok := b.(*LazyV); ok && x.Nm.Prefix == y.Nm.Prefix && len(x.Nm.Keys) == len(y.Nm.Keys) {
+			same := true
+			for i := range x.Nm.Keys {
+				if x.Nm.Keys[i] != y.Nm.Keys[i] {
+					same = false
+				}
+			}
+			if same {
+				return x
+			}
+		}
+		return &mergedV{C: c, A: a, B: b}
+	case *PtrV:
+		if y, ok := b.(*PtrV); ok && x.C != nil && y.C != nil {
+			return &PtrV{C: &Cell{V: ex.mergeVal(c, ex.load(x), ex.load(y)), T: x.T, Name: "merged"}, T: x.T}
+		}
+	}
+	if a == b {
+		return a
+	}
+	// collections and the like: kept as an unevaluated choice (an operation that needs to
+	// look inside aborts the path)
+	return &mergedV{C: c, A: a, B: b}
+}
+
+// mergedV is an unevaluated ite over values the executor cannot merge structurally.
+type mergedV struct {
+	C    *smt.Term
+	A, B Val
+}
+
 func (ex *Exec) tableSet(w *World, id string, key []*smt.Term, val *BytesV) {
 	if val != nil && val.Tag == "marshal" {
 		ex.rowInvWrite(id, key, val)
@@ -436,20 +519,9 @@ func (ex *Exec) tableHavocRow(w *World, id string, key []*smt.Term) {
 	val := &BytesV{Tag: "row", Row: &RowRef{Base: base, Key: nil, Table: id, TKey: key}}
 	has := smt.Var(base+"!has", smt.Bool)
 	// aggregate contribution of the new unknown row is accounted like a set
-	if len(ex.aggsOn(id)) > 0 {
-		if ex.branch(has) {
-			ex.aggUpdate(w, id, key, val)
-			t := w.table(ex, id)
-			t.Writes = append(t.Writes, tWrite{Key: key, Present: true, Val: val})
-		} else {
-			ex.aggUpdate(w, id, key, nil)
-			t := w.table(ex, id)
-			t.Writes = append(t.Writes, tWrite{Key: key, Present: false})
-		}
-	} else {
-		t := w.table(ex, id)
-		t.Writes = append(t.Writes, tWrite{Key: key, Val: val, HavocHas: has})
-	}
+	ex.aggUpdateCond(w, id, key, val, has)
+	t := w.table(ex, id)
+	t.Writes = append(t.Writes, tWrite{Key: key, Val: val, HavocHas: has})
 	w.Log = append(w.Log, "havoc-row "+id)
 }
 
@@ -505,18 +577,29 @@ func (ex *Exec) aggState(w *World, name string) *AggState {
 }
 
 func (ex *Exec) aggUpdate(w *World, id string, key []*smt.Term, newVal *BytesV) {
+	ex.aggUpdateCond(w, id, key, newVal, nil)
+}
+
+func (ex *Exec) aggUpdateCond(w *World, id string, key []*smt.Term, newVal *BytesV, newCond *smt.Term) {
 	decls := ex.aggsOn(id)
 	if len(decls) == 0 {
 		return
 	}
-	old := ex.tableGet(w, id, key)
+	// the row being replaced is read without forking: its contribution leaves where it existed
+	had := ex.hasTerm(w, id, key)
 	for _, d := range decls {
 		a := ex.aggState(w, d.Name)
-		if old != nil {
-			a.Deltas = append(a.Deltas, aggDelta{Row: ex.unmarshalTo(old, d.RowType), Key: key, Sign: -1})
+		if !had.IsFalse() {
+			a.Deltas = append(a.Deltas, aggDelta{Row: ex.rowMerged(w, id, key, d.RowType), Key: key, Sign: -1, Cond: had})
 		}
 		if newVal != nil {
-			a.Deltas = append(a.Deltas, aggDelta{Row: ex.unmarshalTo(newVal, d.RowType), Key: key, Sign: +1})
+			saved := ex.rowGuard
+			if newCond != nil {
+				ex.rowGuard = newCond
+			}
+			nr := ex.unmarshalTo(newVal, d.RowType)
+			ex.rowGuard = saved
+			a.Deltas = append(a.Deltas, aggDelta{Row: nr, Key: key, Sign: +1, Cond: newCond})
 		}
 	}
 }
@@ -532,6 +615,9 @@ func (ex *Exec) aggValue(w *World, name string, params []*smt.Term) *smt.Term {
 	r := smt.App(a.Base, smt.Int, params...)
 	for _, d := range a.Deltas {
 		v := decl.Eval(ex, copyDeep(d.Row), d.Key, params)
+		if d.Cond != nil && !d.Cond.IsTrue() {
+			v = smt.Ite(d.Cond, v, smt.IntC(0))
+		}
 		if d.Sign < 0 {
 			r = smt.Sub(r, v)
 		} else {
